@@ -93,6 +93,7 @@ class Extract:
         self.cls = cls
         self.classes = classes   # class name -> set of method names (same file)
         self.fname = fname
+        self.jumps = 0
         self.alias = {}          # local name -> ("call", key) | ("local", f) | ("shared-mut", f)
 
     # ---- helpers
@@ -274,7 +275,11 @@ class Extract:
             head = []
             label = ast.unparse(s.iter if isinstance(s, ast.For) else s.test)
             self.expr(s.iter if isinstance(s, ast.For) else s.test, head)
+            saved, self.jumps = self.jumps, 0
             body = self.block(s.body)
+            if body and self.jumps:
+                raise Untranslatable(f"{self.fname}:{s.lineno} continue/break in a loop whose body has events")
+            self.jumps = saved
             if s.orelse:
                 raise Untranslatable(f"{self.fname}:{s.lineno} loop else")
             if not body:
@@ -323,6 +328,9 @@ class Extract:
             self.expr(s.test, out)
             return out
         if isinstance(s, (ast.Pass, ast.Import, ast.ImportFrom)):
+            return out
+        if isinstance(s, (ast.Continue, ast.Break)):
+            self.jumps += 1     # judged by the enclosing loop
             return out
         raise Untranslatable(f"{self.fname}:{s.lineno} statement {type(s).__name__}")
 
